@@ -4,7 +4,7 @@
 // non-occa exception, abort or CPU-time-out of the child is a concrete failing input.
 //
 //   fuzz_okl run   [--cpu S] FILE...                      one line per file:  <file>\t<status>\t<signature>\t<acc>/<reached>
-//   fuzz_okl fuzz  --seed N --corpus DIR --out DIR (--iters K | --secs T) [--cpu S] [--raw] [--maxlen B]   (budget counts after the seed pass)
+//   fuzz_okl fuzz  --seed N --corpus DIR --out DIR (--iters K | --secs T) [--cpu S] [--raw] [--mild] [--maxlen B]   (budget counts after the seed pass)
 //                                                          seeded grammar-aware mutation loop (coverage-guided when the
 //                                                          library is built with clang -fsanitize=fuzzer-no-link)
 //   fuzz_okl min   --sig SIG [--cpu S] IN OUT              delta-debug IN (lines, tokens, bytes) keeping signature SIG
@@ -768,7 +768,46 @@ static std::string steer(const std::string &in) {
   return s;
 }
 
+// --mild (quick tier): one small edit of a seed that keeps it close to a well-formed kernel — single
+// token delete / duplicate / swap, identifier renaming, small integer literals, line delete /
+// duplicate / swap.  No dictionary insertions, brackets, nesting, preprocessor lines or byte edits.
+static bool mildOn = false;
+static std::string mutateMild(Rng &r, const std::string &in) {
+  if (r.chance(70)) {
+    Toks t = lexLight(in);
+    if (t.empty()) return in;
+    size_t n = t.size(), i = r.below(n), j = r.below(n);
+    // work on visible tokens only (skip whitespace)
+    for (size_t k = 0; k < n && (t[i].empty() || isspace((unsigned char) t[i][0])); ++k) i = (i + 1) % n;
+    for (size_t k = 0; k < n && (t[j].empty() || isspace((unsigned char) t[j][0])); ++k) j = (j + 1) % n;
+    switch (r.below(5)) {
+      case 0: t.erase(t.begin() + i); break;
+      case 1: t.insert(t.begin() + i, t[i] + " "); break;
+      case 2: std::swap(t[i], t[j]); break;
+      case 3: { for (size_t k = 0; k < n; ++k) { size_t q = (i + k) % n; if (!t[q].empty() && (isalpha((unsigned char) t[q][0]) || t[q][0] == '_')) { t[q] = randIdent(r); break; } } break; }
+      default: { static const std::vector<std::string> nums = {"0", "1", "2", "3", "4", "8", "16", "32", "64", "100", "1.5f", "0.5"};
+                 for (size_t k = 0; k < n; ++k) { size_t q = (i + k) % n; if (!t[q].empty() && isdigit((unsigned char) t[q][0])) { t[q] = r.pick(nums); break; } } break; }
+    }
+    return join(t);
+  }
+  std::vector<std::string> ls; { std::string cur; for (char c : in) { cur += c; if (c == '\n') { ls.push_back(cur); cur.clear(); } } if (!cur.empty()) ls.push_back(cur); }
+  if (ls.empty()) return in;
+  size_t n = ls.size(), i = r.below(n), j = r.below(n);
+  switch (r.below(3)) {
+    case 0: ls.erase(ls.begin() + i); break;
+    case 1: ls.insert(ls.begin() + i, ls[j]); break;
+    default: std::swap(ls[i], ls[j]); break;
+  }
+  std::string s; for (auto &l : ls) s += l; return s;
+}
+
 static std::string mutate(Rng &r, const std::vector<std::string> &corpus) {
+  if (mildOn) {
+    std::string m = mutateMild(r, r.pick(corpus));
+    size_t z0 = m.find('\0');
+    if (z0 != std::string::npos) m.resize(z0);
+    return steer(m);
+  }
   std::string s = r.pick(corpus);
   size_t k = 1 + r.below(r.chance(70) ? 3 : 10);
   for (size_t i = 0; i < k; ++i) {
@@ -860,6 +899,7 @@ int main(int argc, char **argv) {
     else if (a == "--count") count = atol(val().c_str());
     else if (a == "--sig") sig = val();
     else if (a == "--raw") steerOn = false;
+    else if (a == "--mild") mildOn = true;
     else if (a == "--maxlen") maxLen = (size_t) atol(val().c_str());
     else if (a == "--parsers") parserMask = (unsigned) strtoul(val().c_str(), NULL, 0);
     else if (a == "--budget") minBudget = atol(val().c_str());
@@ -1010,7 +1050,7 @@ int main(int argc, char **argv) {
           continue;
         }
         if (seedBatch && o.cpuMs > maxMs) maxMs = o.cpuMs;
-        if (o.newcov > 0 && !seedBatch && in.size() <= maxLen) { corpus.push_back(in); ++covAdds; }
+        if (o.newcov > 0 && !seedBatch && !mildOn && in.size() <= maxLen) { corpus.push_back(in); ++covAdds; }
         if (!seedBatch && samples.size() < 6 && (execs % 37) == 0) samples.push_back(in.substr(0, 300));
       }
     }
